@@ -30,6 +30,21 @@ class Decoder final
 public:
     std::vector<std::shared_ptr<Packet>> decode(const void* data, const std::size_t size);
 
+#ifdef ASAM_CMP_VERIF
+    // Verification hooks (read-only): number of pending reassemblies and total bytes buffered for them
+    std::size_t verifPendingCount() const
+    {
+        return segmentedPackets.size();
+    }
+    std::size_t verifPendingBytes() const
+    {
+        std::size_t total = 0;
+        for (const auto& entry : segmentedPackets)
+            total += entry.second.verifBufferedBytes();
+        return total;
+    }
+#endif
+
 private:
     static bool isSegmentedPacket(const uint8_t* data, const size_t);
     static bool isFirstSegment(const uint8_t* data, const size_t);
@@ -74,6 +89,12 @@ private:
 
         bool isAssembled() const;
         std::shared_ptr<Packet> getPacket();
+#ifdef ASAM_CMP_VERIF
+        std::size_t verifBufferedBytes() const
+        {
+            return payload.size();
+        }
+#endif
 
     private:
         MessageHeader* getHeader();
